@@ -114,7 +114,8 @@ def run(tier, seed):
             # the probe runs carry a finite point budget: a run that is still going after the watchdog time (two orders of magnitude above its usual
             # duration) has not stopped although the maximum was exceeded long ago
             rep.violation('C13_StopsWhenMaximumExceeded', {'strategy': c['strategy'], 'probe': True, 'timeout': True},
-                          {'config': str(c), 'budget': mx, 'watchdog_s': c.get('timeout', 240)}, what='%s: the run with point budget %s did not stop within %d s' % (name, mx, c.get('timeout', 240)))
+                          {'config': {k: (v if not isinstance(v, float) or v != np.inf else 'inf') for k, v in c.items()}, 'budget': mx, 'watchdog_s': c.get('timeout', 240)},
+                          what='%s: the run with point budget %s did not stop within %d s' % (name, mx, c.get('timeout', 240)))
             continue
         except Exception as ex:
             rep.violation('C13_NoException', {'strategy': c['strategy'], 'exception': type(ex).__name__, 'error_calculator': c.get('ec', 'default'), 'probe': True},
@@ -227,6 +228,15 @@ def replay(path, seed):
     c = r['config']
     if c.get('norm') == 'inf':
         c['norm'] = np.inf
+    if 'budget' in r:
+        # a budgeted run that did not stop: run it again under the same watchdog
+        rep.count(1, key='a')
+        rep.count(1, key='b')
+        try:
+            DP.run_once({k: v for k, v in c.items() if k != 'single_step'}, {'tol': -1.0, 'min': 1, 'max': r['budget']}, checks=False)
+        except impl.Timeout:
+            rep.violation('C13_StopsWhenMaximumExceeded', {'strategy': c['strategy'], 'probe': True, 'timeout': True}, r, what='replay: the run with point budget %s did not stop' % r['budget'])
+        return rep.finish()
     lims = r['limits']
     S, rec, ret = DP.run_once(c, lims, checks=False)
     events = rec.events + [DP.ret_event(S, rec, ret, c, lims, with_c05=False)]
